@@ -231,6 +231,21 @@ def session_c09(rng, fens, directed=None):
         e.kill()
 
 
+LINES2 = {}
+
+
+def load_lines2(fens, seed):
+    tmp = os.path.join(WORK, 'fens-l2-%d.txt' % os.getpid())
+    with open(tmp, 'w') as fo:
+        fo.write('\n'.join(fens) + '\n')
+    p = run_harness(['lines2', '--in', tmp, '--k', 5, '--seed', seed])
+    os.remove(tmp)
+    for l in p.stdout.split('\n'):
+        if '|' in l:
+            f, rest = l.split('|', 1)
+            LINES2[f] = [x for x in rest.split(';') if x]
+
+
 def session_continuation(rng, fens):
     """search a position, then step along the reported principal variation and ask for a move with the smallest
     budgets at each step: the cache then holds entries for exactly these positions"""
@@ -244,8 +259,11 @@ def session_continuation(rng, fens):
             return e.events
         pvs = [x['pv'] for x in e.events if x.get('ev') == 'recv' and x.get('kind') == 'info' and x.get('pv')]
         pv = [''.join(t) for t in (pvs[-1] if pvs else [])]
-        for k in range(1, len(pv) + 1):
-            e.send('position fen %s moves %s' % (fen, ' '.join(pv[:k])))
+        conts = [pv[:k] for k in range(1, len(pv) + 1)]
+        # also two-ply lines off the principal variation (replies that give check or capture): searched, hence cached
+        conts += [c.split() for c in LINES2.get(fen, [])]
+        for c in conts:
+            e.send('position fen %s moves %s' % (fen, ' '.join(c)))
             e.send('go ' + rng.choice(ZERO_BUDGETS))
             if e.wait_for('bestmove', 5000) is None:
                 e.log({'ev': 'deadline', 'what': 'bestmove', 't': e.now()})
@@ -608,6 +626,7 @@ def run_process_level(prop, tier, seed, verdict, cov):
         dirs = fens if tier == 'thorough' else random.Random(seed).sample(fens, min(len(fens), 60))
         jobs += [((lambda f: session_c09(random.Random(seed), fens, directed=f)), f) for f in dirs]
     if prop == 'C09':
+        load_lines2(fens, seed)
         nc = 60 if tier == 'quick' else 3000
         jobs += [((lambda s: session_continuation(random.Random(s), fens)), rng.randrange(1 << 30)) for _ in range(nc)]
     if prop == 'C15':
